@@ -306,6 +306,9 @@ func (e *env) binary(x *Bin) interface{} {
 		if b == 0 || math.Trunc(b) == 0 {
 			panic(Unspec("modulo by (a value truncating to) zero"))
 		}
+		if e.quirk("float-mod-truncates-operands") {
+			return int64(a) % int64(b)
+		}
 		return math.Mod(a, b)
 	case "<":
 		return a < b
